@@ -47,8 +47,11 @@ def not_chars(chars):
 
 
 CATEGORY = {
+    # ASCII reading of the categories (T1: Unicode decimal digits other than 0-9 are not modelled)
     sre_c.CATEGORY_DIGIT: lambda: rng(ord('0'), ord('9')),
+    sre_c.CATEGORY_NOT_DIGIT: lambda: z3.Diff(allchar(), rng(ord('0'), ord('9'))),
     sre_c.CATEGORY_SPACE: lambda: char_class(' \t\n\r\x0b\x0c'),
+    sre_c.CATEGORY_NOT_SPACE: lambda: not_chars(' \t\n\r\x0b\x0c'),
 }
 
 
